@@ -720,6 +720,8 @@ func c07P2(r *core.R) {
 		}
 		return true, ""
 	}
+	closeRole := c07CloseRoleUnits(m)
+	defer c07CloseRoleOps(r, m, closeRole, closedByDefer)
 	for _, op := range ops {
 		if op.kind == "close" || op.kind == "done" {
 			continue
@@ -730,6 +732,10 @@ func c07P2(r *core.R) {
 			continue
 		}
 		if op.sel != nil {
+			if c07HasDefault(op.sel) {
+				r.OK(c, op.pos, "in a select with a default clause: the operation never blocks")
+				continue
+			}
 			if m.doneCase(op.sel) != nil {
 				r.OK(c, op.pos, "in a select with a `<-dec.ctx.Done()` case on the decoder's cancellable context")
 			} else {
@@ -739,6 +745,9 @@ func c07P2(r *core.R) {
 		}
 		switch op.kind {
 		case "recv", "range":
+			if closeRole[op.u] {
+				continue // judged by the Close-role obligation below: Close can run when the pipeline was never started
+			}
 			if ok, why := closedByDefer(op.class); ok {
 				r.OK(c, op.pos, "bare %s on %s, which is closed by a deferred close in the producing goroutine (whose own termination is P2/P3)", op.kind, op.class)
 			} else {
